@@ -362,6 +362,13 @@ func (w *writer) node(n *Node, last bool) {
 		w.t(1, ":")
 		w.expr(n.Kids[2], 0, last)
 	case KRaw:
+		if n.Bool {
+			// verbatim, without parentheses (text that ends its own line, e.g. a heredoc)
+			w.sb.WriteString(w.sep(1, "<<", tkOther))
+			w.raw(n.Str)
+			w.prev = ""
+			break
+		}
 		w.t(1, "(")
 		w.raw(n.Str)
 		w.t(0, ")")
